@@ -162,7 +162,7 @@ def worker(job):
             with real.guard(5), real.quiet():
                 f = p3.parse(w)
                 try:
-                    single = len(f) == 1
+                    single = real.flen(f) == 1
                 except real.LoopError:
                     single = False
                 if single:
